@@ -103,6 +103,8 @@ class ElectionRecord(dict):
     def report(self, intr=False):
         "report an action"
         E = self.E
+        if not self.filled:     # interrupted before the first counting action: fill in the header now
+            self._fill()
         report = []
         if E.rule.report(self, report, 'all'):  # allow rule to supply entire report
             return "".join(report)
@@ -190,6 +192,8 @@ class ElectionRecord(dict):
         "dump a list of actions"
 
         E = self.E
+        if not self.filled:     # interrupted before the first counting action: fill in the header now
+            self._fill()
         ecids = self['ecids']
         cdict = self['cdict']
 
